@@ -88,6 +88,7 @@ def run(ctx):
         ctx.nontrivial(("eviction_path",))
         # ---- W2: cyclic inputs --------------------------------------------------------------------------
         vh = cyclic_inputs(ctx, vh, quick, log)
+        vh = incomplete_buffers(ctx, vh, log)
         vh.call(op="lockstats")
     except VHDied as e:
         if e.returncode == 97:
@@ -268,6 +269,32 @@ HDR = "import pytest\n\n"
 def fx(name, deps=(), scope=None):
     d = f'@pytest.fixture(scope="{scope}")' if scope else "@pytest.fixture"
     return f"{d}\ndef {name}({', '.join(deps)}):\n    return 1\n\n"
+
+
+def incomplete_buffers(ctx, vh, log):
+    """buffers in the middle of being typed (they do not parse): the completion context at every line end is computed by
+    text scans up and down the buffer - each must return"""
+    from .. import hostile
+    docs = [(l, t) for l, t in hostile.docs(ctx.rng, thorough=False) if l.startswith("typing_")]
+    n = 0
+    try:
+        db = vh.new_db()
+        for label, text in docs:
+            path = f"/vf_c12/typing/test_{n}.py"
+            n += 1
+            call(ctx, vh, f"analyze:{label}", dict(op="analyze", db=db, path=path, text=text), timeout=20)
+            lines = text.split("\n")
+            for li in sorted({len(lines) - 1, max(0, len(lines) - 2), 0}):
+                for col in sorted({len(lines[li]), 0}):
+                    call(ctx, vh, f"completion_ctx:{label}", dict(op="completion_ctx", db=db, path=path, line=li, char=col), timeout=20)
+        vh.call(op="drop_db", db=db)
+        ctx.nontrivial(("incomplete_buffers", n > 0))
+        ctx.count("incomplete_buffers", n)
+    except VHDied as e:
+        if e.returncode is not None and e.returncode != 97:
+            ctx.violation({"kind": "process-died-on-incomplete-buffer", "status": e.returncode}, {"stderr": e.stderr[-1200:]})
+        vh = VH(vh_bin(), locklog=log, env={"VERIF_SHARDS": "2"})
+    return vh
 
 
 def cyclic_inputs(ctx, vh, quick, log):
